@@ -17,8 +17,13 @@ class ParseError(Exception):
     pass
 
 
-def gs(s):
-    return glist(gZ(ord(c)) for c in s)
+def gs_plain(s):
+    if not s:
+        return "[]"
+    return "[" + "; ".join(str(ord(c)) for c in s) + "]%Z"
+
+
+gs = gs_plain
 
 
 # ----------------------------------------------------------------------------- DOT text -> abstract tree
@@ -185,13 +190,20 @@ class C20(fw.Prop):
     props_file = "props/C20.v"
     run_file = "run/C20Run.v"
     run_module = "run.C20Run"
-    shard = 20
+    shard = 6
     rule = ("HUGRs built by generated well-formed builder programs (harness/progs.py: all container kinds, "
             "order/const/function/control-flow edges, metadata incl. non-ASCII and nested values, inserted "
             "sub-HUGRs), optionally reloaded from their JSON, each rendered under 2-3 of the 6 "
             "palette x qualify_op_name configurations; the DOT source is parsed into the abstract tree.  "
             "a third of the HUGRs are then mutated (leaf nodes deleted, "
-            "new nodes added so that freed indices are reused and children lists leave index order).  "
+            "new nodes added so that freed indices are reused and children lists leave index order; the new nodes "
+            "carry Custom or extension operations of every flavour).  "
+            "45% of the HUGRs have their Custom operations turned into generic ExtOp by Hugr.resolve_extensions; a "
+            "second stream of builder programs over Bool/float64/int<n> uses extension operations whose definition "
+            "belongs to the instance (OpDef.instantiate, a user AsExtOp class with per-instance op_def) next to "
+            "class-per-definition ones (RegisteredOp, std Not/DivMod/Noop) in nested DFGs and conditionals; in 40-50% of "
+            "the cases the non-default configurations are drawn by a DotRenderer object that has drawn another HUGR "
+            "before and draws the HUGR twice.  "
             "non-trivial = the HUGR has a nested container (cluster inside a cluster) and at least one "
             "non-value link (order/const/function/control-flow)")
     trusted = ["harness/props/c20.py: line-oriented parser of the DOT text the graphviz package emits "
@@ -209,6 +221,21 @@ class C20(fw.Prop):
             cases.append({"seed": seed, "root": None, "reload": r < 0.25,
                           "mutate": rng.randint(1, 3) if 0.25 <= r < 0.55 else 0,
                           "cfgs": [0] + rng.sample(range(1, 6), 2 if tier == "quick" else 3)})
+        # seeded round 2: extension operations whose definition is a property of the INSTANCE
+        # (generic ExtOp, classes with a per-instance op_def) and renderers that are used more than once.
+        # drawn from a second generator so that the stream above stays what it was
+        r2 = random.Random(rng.randrange(1 << 30))
+        for c in cases:
+            x = r2.random()
+            # Custom -> ExtOp through Hugr.resolve_extensions (what a user does after load_json)
+            c["resolve"] = x < 0.45
+            # configurations other than the first go through DotRenderer objects that have already drawn
+            # another HUGR, and draw this one twice
+            c["shared"] = r2.random() < 0.4
+        for i in range(14 if tier == "quick" else 200):
+            cases.append({"ext": r2.randrange(1 << 30), "reload": False, "resolve": False,
+                          "shared": r2.random() < 0.5,
+                          "cfgs": [0] + r2.sample(range(1, 6), 2 if tier == "quick" else 3)})
         return cases
 
     def corpus(self, ctx):
@@ -220,11 +247,19 @@ class C20(fw.Prop):
             {"prog": "divmod_partial", "reload": False, "cfgs": [0, 1]},        # D7: unused last output still gets a cell
             {"prog": "divmod_partial", "reload": True, "cfgs": [0]},
             {"prog": "index_reuse", "reload": False, "cfgs": [0, 4]},          # children not in index order
+            # seeded round 2 (C20-d): display names of extension operations are per instance, not per Python class
+            {"prog": "extops_instantiate", "reload": False, "cfgs": [0, 1]},    # fadd, fmul, fneg: three generic ExtOp nodes
+            {"prog": "extops_per_instance_class", "reload": False, "cfgs": [0, 5]},   # one AsExtOp class, two definitions
+            {"prog": "extops_instantiate", "reload": True, "resolve": True, "cfgs": [0, 2]},   # load_json + resolve_extensions
+            {"prog": "extop_single", "reload": False, "shared": True, "cfgs": [0, 2, 1]},   # a renderer that drew another HUGR before
         ]
 
     def build(self, case):
         if "prog" in case:
             return named_program(case["prog"])
+        if "ext" in case or "extprog" in case:
+            p = case.get("extprog") or gen_ext_program(random.Random(case["ext"]))
+            return run_ext_program(p), p
         p = progs.gen_program(random.Random(case["seed"]), case.get("root"))
         h = progs.run(p).hugr
         if case.get("mutate"):
@@ -241,6 +276,11 @@ class C20(fw.Prop):
                 h = Hugr.load_json(h.to_json())
             except Exception as e:
                 return {"error": "reload:" + type(e).__name__, "prog": p}
+        if case.get("resolve"):
+            try:
+                h.resolve_extensions(registry_for(h))
+            except Exception as e:
+                return {"error": "resolve:" + type(e).__name__, "prog": p}
         before = json.dumps(hobs.dump(h), sort_keys=True, default=repr)
         view = hugr_view(h)
         rs = []
@@ -251,6 +291,15 @@ class C20(fw.Prop):
             try:
                 if ci == 0:
                     src = h.render_dot().source                    # the public entry point, default config
+                elif case.get("shared"):
+                    # one DotRenderer object draws a different HUGR first, then this one twice
+                    rend = DotRenderer(RenderConfig(palette=palette, qualify_op_name=q))
+                    rend.render(warmup_hugr())
+                    src = rend.render(h).source
+                    src2 = rend.render(h).source
+                    if src2 != src:
+                        rs.append([cfg, parse_dot(src)])
+                        src = src2                                 # both drawings are judged
                 else:
                     src = h.render_dot(RenderConfig(palette=palette, qualify_op_name=q)).source
                 rs.append([cfg, parse_dot(src)])
@@ -264,6 +313,16 @@ class C20(fw.Prop):
     # -- literals
     def literal(self, case, obs, ctx):
         col = ctx.__dict__.setdefault("colors", fw.Interner())
+        # strings (lists of code points) that occur more than once in a case are bound once by a `let`:
+        # three quarters of a literal used to be repeated copies of type labels and operation names
+        names = {}
+
+        def gs(x):
+            if len(x) < 3:
+                return gs_plain(x)
+            if x not in names:
+                names[x] = "s%d" % len(names)
+            return names[x]
         if "error" in obs:
             # the HUGR could not even be obtained: an empty view with a failed rendering
             return ("(CRender {| hv_tree := HNode {| ni_idx := 0; ni_name_q := []; ni_name_u := []; ni_nin := 0%nat; "
@@ -314,7 +373,9 @@ class C20(fw.Prop):
         hv = "{| hv_tree := %s; hv_nodes := %s; hv_links := %s |}" % (
             gtree(v["tree"]), glist(map(gZ, v["nodes"])), glist(glink(l) for l in v["links"]))
         rs = glist(gpair(gcfg(c), gdot(d)) for c, d in obs["rs"])
-        return gapp("CRender", hv, rs, gbool(obs["unchanged"] and not bad_kind))
+        body = gapp("CRender", hv, rs, gbool(obs["unchanged"] and not bad_kind))
+        lets = "".join("let %s : list Z := %s in " % (nm, gs_plain(x)) for x, nm in names.items())
+        return "(" + lets + body + ")"
 
     # -- classification
     def nontrivial(self, case, obs):
@@ -346,6 +407,11 @@ class C20(fw.Prop):
         return "render:drawing-differs" + (":reloaded" if case.get("reload") else "")
 
     def shrink(self, case):
+        if "ext" in case or "extprog" in case:
+            p = case.get("extprog") or gen_ext_program(random.Random(case["ext"]))
+            rest = {k: v for k, v in case.items() if k != "ext"}
+            for q in shrink_ext_program(p):
+                yield {**rest, "extprog": q}
         if len(case.get("cfgs", [])) > 1:
             for c in case["cfgs"]:
                 yield {**case, "cfgs": [c]}
@@ -354,13 +420,26 @@ class C20(fw.Prop):
         if "seed" in case:
             for k in range(30):
                 yield {**case, "seed": case["seed"] + 1 + k, "cfgs": list(range(6))}
+        if "ext" in case:
+            for k in range(30):
+                yield {**case, "ext": case["ext"] + 1 + k, "cfgs": list(range(6))}
 
     def distribution(self, cases, observations):
-        d = {"reloaded": 0, "mutated": sum(1 for c in cases if c.get("mutate")), "nodes": [], "links_by_kind": {}, "render_errors": 0, "stmt_kinds": {}}
+        d = {"reloaded": 0, "mutated": sum(1 for c in cases if c.get("mutate")), "nodes": [], "links_by_kind": {}, "render_errors": 0, "stmt_kinds": {},
+             "resolved_extensions": sum(1 for c in cases if c.get("resolve")),
+             "reused_renderer": sum(1 for c in cases if c.get("shared")),
+             "extension_op_programs": sum(1 for c in cases if "ext" in c or "extprog" in c),
+             "hugrs_with_2plus_extension_op_definitions": 0}
+
+        def infos(t):
+            yield t["info"]
+            for x in t["ch"]:
+                yield from infos(x)
         for c, o in zip(cases, observations):
             d["reloaded"] += bool(c.get("reload"))
             if "view" not in o:
                 continue
+            d["hugrs_with_2plus_extension_op_definitions"] += len({i["nq"] for i in infos(o["view"]["tree"]) if i["nq"] != i["nu"]}) >= 2
             d["nodes"].append(len(o["view"]["nodes"]))
             for l in o["view"]["links"]:
                 d["links_by_kind"][l[4][0]] = d["links_by_kind"].get(l[4][0], 0) + 1
@@ -371,6 +450,288 @@ class C20(fw.Prop):
         ns = sorted(d["nodes"])
         d["nodes"] = {"min": ns[0], "median": ns[len(ns) // 2], "max": ns[-1]} if ns else {}
         return d
+
+
+# ----------------------------------------------------------------------------- extension operations (seeded round 2)
+# The display name of an extension operation is a property of the operation INSTANCE: generic ops.ExtOp nodes
+# (OpDef.instantiate, Custom.resolve / Hugr.resolve_extensions) and user classes whose op_def() depends on
+# the instance share one Python class between many definitions.
+
+_EXT = {}
+
+
+def ext_env():
+    """operations of every flavour, by spec (built once; hugr is imported lazily like everywhere in this file)"""
+    if _EXT:
+        return _EXT
+    from dataclasses import dataclass
+    from hugr import ext, ops, tys
+    from hugr.std.float import FLOAT_OPS_EXTENSION, FLOAT_T
+    from hugr.std.int import INT_OPS_EXTENSION, int_t
+    from hugr.std.logic import EXTENSION as LOGIC_EXTENSION, Not
+    from hugr.std.int import DivMod
+
+    X = ext.Extension("verif.c20", ext.Version(0, 1, 0))
+    B, F = tys.Bool, FLOAT_T
+    gate_sigs = {"flip": ([B], [B]), "both": ([B, B], [B]), "scale": ([F, F], [F]), "sign": ([F], [B]),
+                 "fork": ([B], [B, B]), "sink": ([F], [])}
+    for nm, (i, o) in gate_sigs.items():
+        X.add_op_def(ext.OpDef(nm, ext.OpDefSig(tys.FunctionType(i, o)), description="gate " + nm))
+
+    @dataclass(frozen=True)
+    class Gate(ops.AsExtOp):                      # one class, one definition per instance (cf. tests/conftest.py OneQbGate)
+        which: str
+
+        def op_def(self):
+            return X.get_op(self.which)
+
+    @X.register_op("Mix", signature=tys.FunctionType([F, B], [F]))
+    @dataclass(frozen=True)
+    class MixDef(ops.RegisteredOp):               # one class, one definition
+        pass
+
+    @X.register_op("Pick", signature=tys.FunctionType([B, F, F], [F]))
+    @dataclass(frozen=True)
+    class PickDef(ops.RegisteredOp):
+        pass
+
+    def ty(t):
+        return {"B": B, "F": F, "I": int_t(5), "J": int_t(6)}[t]
+
+    # spec (tuple) -> (ins, outs, maker).  "f" is float64 as the standard float operations declare it (an unresolved
+    # tys.Opaque, which hugr-py does not consider equal to FLOAT_T): usable wherever "F" is needed, but kept apart
+    # where the builder compares rows (outputs of the cases of a conditional)
+    table = {}
+
+    def put(spec, ins, outs, mk):
+        table[spec] = (list(ins), list(outs), mk)
+    for nm in ("fadd", "fsub", "fmul", "fdiv", "fmax", "fmin", "fpow"):
+        put(("float", nm), "FF", "f", (lambda nm=nm: FLOAT_OPS_EXTENSION.get_op(nm).instantiate()))
+    for nm in ("fneg", "fabs", "ffloor", "fceil", "fround"):
+        put(("float", nm), "F", "f", (lambda nm=nm: FLOAT_OPS_EXTENSION.get_op(nm).instantiate()))
+    for nm in ("feq", "fne", "flt", "fgt", "fle", "fge"):
+        put(("float", nm), "FF", "B", (lambda nm=nm: FLOAT_OPS_EXTENSION.get_op(nm).instantiate()))
+    for nm in ("And", "Or", "Xor", "Eq"):
+        put(("logic", nm), "BB", "B", (lambda nm=nm: LOGIC_EXTENSION.get_op(nm).instantiate()))
+    put(("logic", "Not"), "B", "B", lambda: LOGIC_EXTENSION.get_op("Not").instantiate())
+    for w, t in ((5, "I"), (6, "J")):
+        for nm in ("iadd", "isub", "imul", "iand", "ior", "ixor", "imax_u", "imin_s"):
+            put(("int", nm, w), t + t, t,
+                (lambda nm=nm, w=w, t=t: INT_OPS_EXTENSION.get_op(nm).instantiate(
+                    [tys.BoundedNatArg(w)], tys.FunctionType([ty(t), ty(t)], [ty(t)]))))
+        for nm in ("ineg", "inot", "iabs"):
+            put(("int", nm, w), t, t,
+                (lambda nm=nm, w=w, t=t: INT_OPS_EXTENSION.get_op(nm).instantiate(
+                    [tys.BoundedNatArg(w)], tys.FunctionType([ty(t)], [ty(t)]))))
+        for nm in ("ieq", "ilt_u", "ige_s"):
+            put(("int", nm, w), t + t, "B",
+                (lambda nm=nm, w=w, t=t: INT_OPS_EXTENSION.get_op(nm).instantiate(
+                    [tys.BoundedNatArg(w)], tys.FunctionType([ty(t), ty(t)], [tys.Bool]))))
+    for nm, (i, o) in gate_sigs.items():
+        code = lambda r: "".join("B" if x is B else "F" for x in r)
+        put(("gate", nm), code(i), code(o), (lambda nm=nm: Gate(nm)))
+        put(("gatedef", nm), code(i), code(o), (lambda nm=nm: X.get_op(nm).instantiate()))
+    put(("reg", "Mix"), "FB", "F", lambda: MixDef())
+    put(("reg", "Pick"), "BFF", "F", lambda: PickDef())
+    put(("std", "Not"), "B", "B", lambda: Not)
+    put(("std", "DivMod"), "II", "II", lambda: DivMod)
+    for t in "BFIJ":
+        put(("noop", t), t, t, (lambda t=t: ops.Noop(ty(t))))
+        put(("custom", "c" + t), t + t, t,
+            (lambda t=t: ops.Custom("c" + t, tys.FunctionType([ty(t), ty(t)], [ty(t)]), extension="verif.ext")))
+    _EXT.update({"table": table, "ty": ty, "ext": X,
+                 "std": [FLOAT_OPS_EXTENSION, INT_OPS_EXTENSION, LOGIC_EXTENSION]})
+    return _EXT
+
+
+def mk_ext_op(spec):
+    return ext_env()["table"][tuple(spec)][2]()
+
+
+def registry_for(h):
+    """the standard extensions plus a definition for every operation name the HUGR uses from an extension that
+    is not a standard one, so that Hugr.resolve_extensions turns every Custom operation into an ExtOp"""
+    from hugr import ext, ops, tys
+    from hugr.std import PRELUDE
+    from hugr.std.float import FLOAT_OPS_EXTENSION, FLOAT_TYPES_EXTENSION
+    from hugr.std.int import INT_OPS_EXTENSION, INT_TYPES_EXTENSION
+    from hugr.std.logic import EXTENSION as LOGIC_EXTENSION
+    reg = ext.ExtensionRegistry()
+    std = [PRELUDE, FLOAT_OPS_EXTENSION, FLOAT_TYPES_EXTENSION, INT_OPS_EXTENSION, INT_TYPES_EXTENSION, LOGIC_EXTENSION]
+    for e in std:
+        reg.add_extension(e)
+    known = {e.name for e in std}
+    mine = {}
+    for n in h:
+        op = h[n].op
+        if isinstance(op, ops.Custom) and op.extension and op.extension not in known:
+            e = mine.get(op.extension)
+            if e is None:
+                e = mine[op.extension] = ext.Extension(op.extension, ext.Version(0, 1, 0))
+            if op.op_name not in e.operations:
+                e.add_op_def(ext.OpDef(op.op_name, ext.OpDefSig(None, binary=True), description=op.description))
+    for e in mine.values():
+        reg.add_extension(e)
+    return reg
+
+
+_WARM = []
+
+
+def warmup_hugr():
+    """the HUGR a shared DotRenderer draws before the one under test: one node of every flavour of operation"""
+    if not _WARM:
+        _WARM.append(run_ext_program({"ins": ["F", "F", "B", "I"], "outs": [4, 8, 10], "body": [
+            {"k": "op", "op": ["float", "fadd"], "args": [0, 1], "outs": [4]},
+            {"k": "op", "op": ["gate", "flip"], "args": [2], "outs": [5]},
+            {"k": "op", "op": ["reg", "Mix"], "args": [4, 5], "outs": [6]},
+            {"k": "op", "op": ["std", "Not"], "args": [5], "outs": [7]},
+            {"k": "dfg", "args": [7], "ins": [20], "outs": [8], "inner_outs": [21], "body": [
+                {"k": "op", "op": ["logic", "Xor"], "args": [20, 2], "outs": [21]}]},
+            {"k": "op", "op": ["int", "iadd", 5], "args": [3, 3], "outs": [9]},
+            {"k": "op", "op": ["custom", "cI"], "args": [9, 3], "outs": [10]},
+        ]}))
+    return _WARM[0]
+
+
+OP_WEIGHT = {"float": 5, "logic": 4, "int": 3, "gate": 5, "gatedef": 2, "reg": 2, "std": 1, "noop": 1, "custom": 1}
+
+
+def gen_ext_program(rng):
+    """a well-formed builder program (as data) over Bool/float64/int<5>/int<6> whose operations are extension
+    operations of every flavour, with nested DFGs and conditionals that also use wires of enclosing regions"""
+    env = ext_env()
+    table = env["table"]
+    specs = sorted(table, key=repr)
+    weights = [OP_WEIGHT[s[0]] for s in specs]
+    counter = [0]
+
+    def fresh():
+        counter[0] += 1
+        return counter[0] - 1
+
+    def region(avail, outer, depth, budget):
+        """avail: [(wire, ty)] defined in this region; outer: wires of enclosing regions"""
+        body = []
+        for _ in range(budget):
+            pool = avail + (outer if rng.random() < 0.3 else [])
+            r = rng.random()
+            if r < 0.14 and depth < 3 and pool:
+                args = [rng.choice(pool) for _ in range(rng.randint(0, 2))]
+                ins = [(fresh(), t) for _, t in args]
+                inner, inner_avail = region(list(ins), avail + outer, depth + 1, rng.randint(1, 4))
+                k = rng.randint(1, min(2, len(inner_avail))) if inner_avail else 0
+                io = rng.sample(inner_avail, k)
+                outs = [(fresh(), t) for _, t in io]
+                body.append({"k": "dfg", "args": [w for w, _ in args], "ins": [w for w, _ in ins], "body": inner,
+                             "inner_outs": [w for w, _ in io], "outs": [w for w, _ in outs]})
+                avail = avail + outs
+                continue
+            if r < 0.22 and depth < 3 and any(t == "B" for _, t in pool):
+                cond = rng.choice([w for w, t in pool if t == "B"])
+                args = [rng.choice(pool) for _ in range(rng.randint(1, 2))]
+                cases, out_tys = [], None
+                for ci in range(2):
+                    ins = [(fresh(), t) for _, t in args]
+                    inner, inner_avail = region(list(ins), avail + outer, depth + 1, rng.randint(0, 3))
+                    if out_tys is None:
+                        io = rng.sample(inner_avail, rng.randint(1, min(2, len(inner_avail))))
+                        out_tys = [t for _, t in io]
+                    else:
+                        io = []
+                        for t in out_tys:
+                            c = [x for x in inner_avail if x[1] == t]
+                            if not c:          # produce one from the inputs of the case
+                                src = next(x for x in ins if x[1] == t) if any(x[1] == t for x in ins) else None
+                                if src is None:
+                                    break
+                                c = [src]
+                            io.append(rng.choice(c))
+                        if len(io) != len(out_tys):
+                            cases = None
+                            break
+                    cases.append({"ins": [w for w, _ in ins], "body": inner, "outs": [w for w, _ in io]})
+                if cases is None:
+                    continue
+                outs = [(fresh(), t) for t in out_tys]
+                body.append({"k": "cond", "cond": cond, "args": [w for w, _ in args], "cases": cases,
+                             "outs": [w for w, _ in outs]})
+                avail = avail + outs
+                continue
+            for _try in range(8):
+                spec = rng.choices(specs, weights)[0]
+                ins, outs, _mk = table[spec]
+                have = {t.upper() for _, t in pool}
+                if all(t in have for t in ins):
+                    break
+            else:
+                continue
+            args = [rng.choice([w for w, t in pool if t.upper() == ti]) for ti in ins]
+            ows = [(fresh(), t) for t in outs]
+            st = {"k": "op", "op": list(spec), "args": args, "outs": [w for w, _ in ows]}
+            if rng.random() < 0.15:
+                st["md"] = rng.choice([{"note": "x<y"}, {"k": [1, 2]}, {"ü": None, "n": 3}])
+            body.append(st)
+            avail = avail + ows
+        return body, avail
+
+    in_tys = [rng.choice("BBFFIJ") for _ in range(rng.randint(1, 4))]
+    ins = [(fresh(), t) for t in in_tys]
+    body, avail = region(list(ins), [], 0, rng.randint(3, 12))
+    outs = rng.sample(avail, rng.randint(0, min(3, len(avail))))
+    return {"ins": in_tys, "body": body, "outs": [w for w, _ in outs]}
+
+
+def run_ext_program(p):
+    from hugr.build import Dfg
+    ty = ext_env()["ty"]
+    d = Dfg(*[ty(t) for t in p["ins"]])
+    wires = dict(enumerate(d.inputs()))
+
+    def body(b, stmts):
+        for st in stmts:
+            k = st["k"]
+            if k == "op":
+                kw = {"metadata": st["md"]} if st.get("md") is not None else {}
+                n = b.add_op(mk_ext_op(st["op"]), *[wires[w] for w in st["args"]], **kw)
+                for i, w in enumerate(st["outs"]):
+                    wires[w] = n.out(i)
+            elif k == "dfg":
+                with b.add_nested(*[wires[w] for w in st["args"]]) as inner:
+                    for w, x in zip(st["ins"], inner.inputs()):
+                        wires[w] = x
+                    body(inner, st["body"])
+                    inner.set_outputs(*[wires[w] for w in st["inner_outs"]])
+                for i, w in enumerate(st["outs"]):
+                    wires[w] = inner.parent_node.out(i)
+            elif k == "cond":
+                with b.add_conditional(wires[st["cond"]], *[wires[w] for w in st["args"]]) as cb:
+                    for i, c in enumerate(st["cases"]):
+                        with cb.add_case(i) as cc:
+                            for w, x in zip(c["ins"], cc.inputs()):
+                                wires[w] = x
+                            body(cc, c["body"])
+                            cc.set_outputs(*[wires[w] for w in c["outs"]])
+                for i, w in enumerate(st["outs"]):
+                    wires[w] = cb.parent_node.out(i)
+            else:
+                raise ValueError(k)
+    body(d, p["body"])
+    d.set_outputs(*[wires[w] for w in p["outs"]])
+    return d.hugr
+
+
+def shrink_ext_program(p):
+    """drop trailing statements of the outermost body (outputs that lose their wire are dropped too)"""
+    def defined(stmts, acc):
+        for st in stmts:
+            acc.update(st["outs"])
+        return acc
+    for cut in (len(p["body"]) // 2, len(p["body"]) - 1):
+        if 0 <= cut < len(p["body"]):
+            b = p["body"][:cut]
+            ok = defined(b, set(range(len(p["ins"]))))
+            yield {"ins": p["ins"], "body": b, "outs": [w for w in p["outs"] if w in ok]}
 
 
 def mutate(h, rng, k):
@@ -392,7 +753,12 @@ def mutate(h, rng, k):
             return False           # dangling link left behind (C04)
         parents = [p] + [m for m in h if h.children(m) and type(h[m].op).__name__ in ("DFG", "FuncDefn", "Case", "TailLoop", "DataflowBlock")]
         par = rng.choice(parents)
-        new = h.add_node(ops.Custom("mut", tys.FunctionType([tys.Bool], [tys.Bool]), extension="verif.ext"), par, 1)
+        if rng.random() < 0.5:
+            op = ops.Custom("mut", tys.FunctionType([tys.Bool], [tys.Bool]), extension="verif.ext")
+        else:              # extension operations of every flavour (generic ExtOp, per-instance classes, registered classes)
+            table = ext_env()["table"]
+            op = mk_ext_op(rng.choice(sorted(table, key=repr)))
+        new = h.add_node(op, par, op.num_out)
         tgt = [m for m in h.children(par) if m != new and type(h[m].op).__name__ != "Input"]
         if tgt and rng.random() < 0.7:
             h.add_order_link(new, rng.choice(tgt))
@@ -450,6 +816,24 @@ def named_program(name):
         d.hugr.add_link(third.out(0), second.inp(0))
         d.set_outputs(second)
         return d.hugr, name
+    if name == "extops_instantiate":       # the demo of seeded change C20-d
+        from hugr.std.float import FLOAT_OPS_EXTENSION, FLOAT_T
+        d = Dfg(FLOAT_T, FLOAT_T, tys.Bool)
+        a, b, c = d.inputs()
+        s = d.add_op(FLOAT_OPS_EXTENSION.get_op("fadd").instantiate(), a, b)
+        p = d.add_op(FLOAT_OPS_EXTENSION.get_op("fmul").instantiate(), s, b)
+        n = d.add_op(FLOAT_OPS_EXTENSION.get_op("fneg").instantiate(), p)
+        nc = d.add_op(Not, c)
+        d.set_outputs(n, nc)
+        return d.hugr, name
+    if name == "extops_per_instance_class":
+        return run_ext_program({"ins": ["B", "F"], "outs": [3, 4], "body": [
+            {"k": "op", "op": ["gate", "flip"], "args": [0], "outs": [2]},
+            {"k": "op", "op": ["gate", "both"], "args": [2, 0], "outs": [3]},
+            {"k": "op", "op": ["gate", "scale"], "args": [1, 1], "outs": [4]}]}), name
+    if name == "extop_single":
+        return run_ext_program({"ins": ["F"], "outs": [1], "body": [
+            {"k": "op", "op": ["float", "fmul"], "args": [0, 0], "outs": [1]}]}), name
     raise ValueError(name)
 
 
